@@ -21,7 +21,9 @@ func TestDevErrors(t *testing.T) {
 	re := regexp.MustCompile(`[A-Z]\d+N\d+_|\d+`)
 	seq := 0
 	n := 0
-	rec.Check(t, 300, func(rt *rapid.T) {
+	devSites = 1
+	defer func() { devSites = 0 }()
+	rec.Check(t, 500, func(rt *rapid.T) {
 		seq++
 		p := Generate(rt, fmt.Sprintf("S0N%d_", seq))
 		if err := gobatch.Vet(p); err != nil {
@@ -39,9 +41,10 @@ func TestDevErrors(t *testing.T) {
 			k = "PANIC " + re.ReplaceAllString(res.Panic, "#")
 		}
 		if k != "" {
-			if len(k) > 160 {
-				k = k[:160]
+			if len(k) > 110 {
+				k = k[:110]
 			}
+			k += "  TAGS " + fmt.Sprint(p.Tags)
 			hist[k]++
 			if old, ok := example[k]; !ok || len(p.Source("p")) < len(old.Source("p")) {
 				example[k] = p
